@@ -102,6 +102,23 @@ CHECKS = {
               "and continuing after saturation; constructor grid (max_count 300..2^63 x num_reserved 0..UMax-1): ValueError or the "
               "observed ceiling decodes to max_count (1e-6), decided by TLC on exact integers."),
         note="ill-conditioned grid points (max_count - nr within 1% of UMax - nr) excluded", technique="TLA+ action properties + TLC; edge replay; trace validation"),
+    "C10": dict(
+        category="model_checking", design_ref="DESIGN.md 4.10",
+        text=("PersistLogic.tla states which loader accepts which file; the SaveLoad action of every sketch module states what a load "
+              "reproduces.  Real save->load round trips through every loader of the class x loader matrix (random shapes incl. width/"
+              "depth 1, non-default max_count/num_reserved/phi, seeds >= 2^63, shared_memory on/off) are validated by TLC: class, "
+              "public parameters, state digests, every observer, merges in both directions, TypeError for another counter type; "
+              "save->load->continue chains run inside the validated histories of all five classes."),
+        note="state equality through sha256 digests of all arrays; observers hashed as text",
+        technique="TLA+ spec of loader acceptance + SaveLoad actions; trace validation of real round trips and continued histories"),
+    "C20": dict(
+        category="model_checking", design_ref="DESIGN.md 4.20",
+        text=("Persist.tla models the zip writer byte by byte (header patched after the data, directory after all members, EOCD last) "
+              "with a crash after any byte and the reader's acceptance condition; TLC checks CommitLast for several layouts.  Each saved "
+              "file is parsed into the model's regions (premise checked) and EVERY byte-offset prefix is passed to the class loader "
+              "and the module-level load(): TLC validates that only the complete file loads, and to the saved sketch."),
+        note="torn images (unpatched header with later bytes present) are explored in the model only",
+        technique="TLA+ crash-point model checked by TLC; exhaustive prefix enumeration validated as a trace"),
 }
 
 NOT_APPLICABLE = {
